@@ -3,6 +3,7 @@ From Coq Require Import List NArith ZArith Bool String.
 From PMS Require Import Base.PyStr Base.Exn Model.ConfigSyntax Model.ConfigVersion Model.Config
   Model.ConfigCheck Spec.ConfigSpec Gen.Signatures
   Proofs.ConfigOrder Proofs.ConfigProofs Proofs.ConfigFinite.
+From PMS Require Import Proofs.VersionProofs Proofs.VersionConfigLink.
 Import ListNotations.
 Open Scope N_scope.
 
@@ -71,6 +72,31 @@ Proof.
     (conj (gateway_const_floor orc cont v H) (conj (wants_presentation_num orc cont v H)
     (conj (ge20_iff_2x_table (sections v))
           (eq_trans (node_same_rule orc cont (VStr v)) (gateway_const_floor orc cont v H))))))).
+Qed.
+
+(* the core machine (Model/Oracles.v) computes its version verdicts on dotted numeric strings
+   with the hand-written functions of Base/Version.v; they agree with this model, which is
+   interpreted over the tests / key order / module table GENERATED from the source: is_version
+   accepts v iff ver_ge14 v, safe_is_version returns safe_num v, the gateway and a node
+   presenting v get the module with index const_index v; the hand-written key list is the
+   generated one; and the independent numeric order num_ge is the order le_numb of this spec *)
+Theorem C18_core_machine_version_agrees :
+  (forall (orc : avop -> pstr -> pstr -> option bool) (cont : pstr -> bool) (v : pstr),
+     dotted_numeric v = true ->
+     is_version orc cont (VStr v) = (if ver_ge14 v then Ok v else Raise VolInvalid)
+     /\ safe_is_version orc cont (VStr v) = Ok (safe_num v)
+     /\ gateway_const orc cont (VStr v) = Ok (nth (const_index v) const_modules [])
+     /\ node_const orc cont (VStr v) = Ok (nth (const_index v) const_modules []))
+  /\ (map fst const_keys_desc = iter_keys
+      /\ map (fun ki => Some (nth (snd ki) const_modules [])) const_keys_desc
+         = map (fun k => assoc k const_versions) iter_keys
+      /\ get_const_default = nth 0 const_modules [] /\ safe_fallback = v_floor)
+  /\ (forall a b, num_ge a b = le_numb b a).
+Proof.
+  exact (conj (fun orc cont v H =>
+                 conj (is_version_core orc cont v H) (conj (safe_is_version_core orc cont v H)
+                      (gateway_const_core orc cont v H)))
+              (conj const_keys_match_generated num_ge_le_numb)).
 Qed.
 
 (* whatever a node presents (any value, any verdict of the oracle) is selected
@@ -197,3 +223,4 @@ Print Assumptions C18_nonnumeric_fallback.
 Print Assumptions C18_nonnumeric_fallback_unfixed_refuted.
 Print Assumptions C18_alert_effect.
 Print Assumptions C18_generated_matches_spec.
+Print Assumptions C18_core_machine_version_agrees.
